@@ -46,16 +46,18 @@ var shardNames = []string{"shard0", "shard1"}
 var types = []object.Type{object.TypeRegular, object.TypeTombstone, object.TypeLock, object.TypeLink}
 
 type tcase struct {
-	Kind     string  // "rep" | "ec-part" | "ec-plain"
+	Kind     string  // "rep" | "ec-part" | "ec-plain" | "mixed" (REP lists first, then one list per EC rule of ECs)
 	Lists    [][]int // node ids: 0 = the local node, 1..K = remote nodes
-	Reps     []int   // REP kind: copies per rule
+	Reps     []int   // copies per REP rule
 	InNetmap bool
 	Ans      []int // Ans[k-1] = answer kind of remote node k
 	Type     int   // index into types
 	Shards   int   // number of local shards holding the copy
 	ECData   int
 	ECParity int
-	Part     int // EC part index held locally (ec-part)
+	Part     int      // EC part index held locally (ec-part; mixed: -1 = the object is not an EC part)
+	ECs      [][2]int // mixed: (data, parity) per EC rule
+	PartRule int      // mixed: EC rule of the locally held part
 }
 
 func (c tcase) String() string {
@@ -66,6 +68,11 @@ func (c tcase) String() string {
 	s := fmt.Sprintf("%s lists=%v (0=local)", c.Kind, c.Lists)
 	if c.Kind == "rep" {
 		s += fmt.Sprintf(" REP=%v", c.Reps)
+	} else if c.Kind == "mixed" {
+		s += fmt.Sprintf(" REP=%v (first %d lists) EC=%v (remaining lists)", c.Reps, len(c.Reps), c.ECs)
+		if c.Part >= 0 {
+			s += fmt.Sprintf(" object=part %d of EC rule #%d", c.Part, c.PartRule)
+		}
 	} else {
 		s += fmt.Sprintf(" EC %d/%d part=%d", c.ECData, c.ECParity, c.Part)
 	}
@@ -133,6 +140,19 @@ func run(w *polworld.World, c tcase) outcome {
 	case "ec-plain":
 		w.Placement.EC = []iec.Rule{{DataPartNum: uint8(c.ECData), ParityPartNum: uint8(c.ECParity)}}
 		w.Run(types[c.Type], shards, -1, -1)
+	case "mixed":
+		w.Placement.Rep = make([]uint, 0, len(c.Reps))
+		for _, r := range c.Reps {
+			w.Placement.Rep = append(w.Placement.Rep, uint(r))
+		}
+		for _, e := range c.ECs {
+			w.Placement.EC = append(w.Placement.EC, iec.Rule{DataPartNum: uint8(e[0]), ParityPartNum: uint8(e[1])})
+		}
+		if c.Part >= 0 {
+			w.Run(object.TypeRegular, shards, c.PartRule, c.Part)
+		} else {
+			w.Run(types[c.Type], shards, -1, -1)
+		}
 	}
 	return judge(w, c)
 }
@@ -228,62 +248,25 @@ func judge(w *polworld.World, c tcase) (o outcome) {
 			localListed = true
 		}
 	}
+	// The requirement is computed from the POLICY (never from the policer's intermediate arrays):
+	//  - an EC part is needed unless another node of ITS rule's list is confirmed to hold it;
+	//  - LOCK/LINK are kept on every node of every list; TOMBSTONE on every node of every EC list;
+	//  - otherwise every REP rule listing the local node needs REP confirmed other holders of its list;
+	//  - a copy no rule asks for may go only after at least one real confirmation.
+	nRep := 0
 	switch c.Kind {
-	case "rep", "ec-plain":
-		if localListed && (types[c.Type] == object.TypeLock || types[c.Type] == object.TypeLink) {
-			return fail("lock-or-link-dropped-on-container-node", "%v removed from a container node", types[c.Type])
+	case "rep":
+		nRep = len(c.Lists)
+	case "mixed":
+		nRep = len(c.Reps)
+	}
+	if c.Kind == "ec-part" || (c.Kind == "mixed" && c.Part >= 0) {
+		list := c.Lists[0]
+		if c.Kind == "mixed" {
+			list = c.Lists[nRep+c.PartRule]
 		}
-		for i, l := range c.Lists {
-			if !has(l, 0) {
-				continue
-			}
-			req := 1 // ec-plain: the text gives no number for non-part objects on EC lists; demand the minimum
-			if c.Kind == "rep" {
-				req = c.Reps[i]
-			}
-			cnt, nm := 0, 0
-			for _, n := range l {
-				if confirmed(n) {
-					cnt++
-				}
-				if maint(n) {
-					nm++
-				}
-			}
-			if cnt < req {
-				return fail("in-container:local-copy-dropped-with-confirmed<required:"+cause(req-cnt, nm, l),
-					"local copy removed although rule #%d (REP %d over %v) has only %d confirmed other holder(s)", i, req, l, cnt)
-			}
-		}
-		if !localListed {
-			// No rule lists the local node: the text still forbids maintenance/unreachable nodes to serve as
-			// the confirmation a removal is based on, so at least one real confirmation must exist.
-			cnt, nm := 0, 0
-			seen := map[int]bool{}
-			var all []int
-			for _, l := range c.Lists {
-				for _, n := range l {
-					if seen[n] {
-						continue
-					}
-					seen[n] = true
-					all = append(all, n)
-					if confirmed(n) {
-						cnt++
-					}
-					if maint(n) {
-						nm++
-					}
-				}
-			}
-			if cnt == 0 {
-				return fail("outside-container:local-copy-dropped-with-no-confirmed-holder:"+cause(1, nm, all),
-					"node outside the container removed its copy with no confirmed holder at all")
-			}
-		}
-	case "ec-part":
 		cnt, nm := 0, 0
-		for _, n := range c.Lists[0] {
+		for _, n := range list {
 			if confirmed(n) {
 				cnt++
 			}
@@ -292,7 +275,65 @@ func judge(w *polworld.World, c tcase) (o outcome) {
 			}
 		}
 		if cnt == 0 {
-			return fail("ec-part:dropped-without-any-confirmed-holder:"+cause(1, nm, c.Lists[0]), "EC part removed with no confirmed other holder")
+			return fail("ec-part:dropped-without-any-confirmed-holder:"+cause(1, nm, list), "EC part removed with no confirmed other holder in its rule's list %v", list)
+		}
+		return o
+	}
+	typ := types[c.Type]
+	if localListed && (typ == object.TypeLock || typ == object.TypeLink) {
+		return fail("lock-or-link-dropped-on-container-node", "%v removed from a container node", typ)
+	}
+	localInRep := false
+	for i, l := range c.Lists {
+		if !has(l, 0) {
+			continue
+		}
+		if i >= nRep {
+			if typ == object.TypeTombstone {
+				return fail("tombstone-dropped-on-node-of-an-EC-list", "TOMBSTONE removed from a node of EC list #%d %v (tombstones are kept on every node of every EC list)", i-nRep, l)
+			}
+			continue // a whole REGULAR object is not required by an EC rule
+		}
+		localInRep = true
+		req := c.Reps[i]
+		cnt, nm := 0, 0
+		for _, n := range l {
+			if confirmed(n) {
+				cnt++
+			}
+			if maint(n) {
+				nm++
+			}
+		}
+		if cnt < req {
+			return fail("in-container:local-copy-dropped-with-confirmed<required:"+cause(req-cnt, nm, l),
+				"local copy removed although rule #%d (REP %d over %v) has only %d confirmed other holder(s)", i, req, l, cnt)
+		}
+	}
+	if !localInRep {
+		// No rule asks for this copy: the text still forbids maintenance/unreachable nodes to serve as the
+		// confirmation a removal is based on, so at least one real confirmation must exist.
+		cnt, nm := 0, 0
+		seen := map[int]bool{}
+		var all []int
+		for _, l := range c.Lists {
+			for _, n := range l {
+				if seen[n] {
+					continue
+				}
+				seen[n] = true
+				all = append(all, n)
+				if confirmed(n) {
+					cnt++
+				}
+				if maint(n) {
+					nm++
+				}
+			}
+		}
+		if cnt == 0 {
+			return fail("outside-container:local-copy-dropped-with-no-confirmed-holder:"+cause(1, nm, all),
+				"node that no rule asks to keep the copy removed it with no confirmed holder at all")
 		}
 	}
 	return o
@@ -419,6 +460,103 @@ func main() {
 		}
 	}
 	ecJobs := len(jobs) - oneRuleJobs - twoRuleJobs
+	// --- REP+EC mixed policies and several EC rules: REP lists first, then one list per EC rule; list lengths
+	// on both sides of each other, lists overlapping in every way; object = REGULAR (if a REP rule exists),
+	// TOMBSTONE, LOCK, LINK, or any part of any EC rule
+	type mx struct {
+		nRep, nEC int
+		maxRepLen int
+		maxECLen  int
+		maxK      int
+		ecRules   [][2]int
+	}
+	mixes := []mx{
+		{1, 1, 3, 4, 3, [][2]int{{1, 1}, {2, 1}}},
+		{2, 1, 2, 3, 3, [][2]int{{1, 1}}},
+		{1, 2, 2, 3, 3, [][2]int{{1, 1}}},
+		{0, 2, 0, 3, 3, [][2]int{{1, 1}, {2, 1}}},
+	}
+	mixTxt := "1 REP (1..3 nodes)+1 EC (1/1 or 2/1, total..4 nodes); 2 REP (1..2)+1 EC 1/1 (2..3); 1 REP (1..2)+2 EC 1/1 (2..3); 2 EC rules (1/1, 2/1; total..3 nodes); <=3 remote nodes + local"
+	if r.Thorough() {
+		mixes = []mx{
+			{1, 1, 4, 5, 4, [][2]int{{1, 1}, {2, 1}}},
+			{2, 1, 3, 3, 4, [][2]int{{1, 1}, {2, 1}}},
+			{1, 2, 3, 3, 4, [][2]int{{1, 1}, {2, 1}}},
+			{0, 2, 0, 4, 4, [][2]int{{1, 1}, {2, 1}}},
+		}
+		mixTxt = "1 REP (1..4 nodes)+1 EC (1/1 or 2/1, total..5 nodes); 2 REP (1..3)+1 EC (total..3); 1 REP (1..3)+2 EC (total..3); 2 EC rules (total..4 nodes); <=4 remote nodes + local"
+	}
+	for _, m := range mixes {
+		n := m.nRep + m.nEC
+		lens := make([]int, n)
+		ecs := make([][2]int, m.nEC)
+		var recLen func(i int)
+		emit := func() {
+			genLists(n, lens, m.maxK, func(lists [][]int, k int) {
+				sizes := make([]int, m.nRep)
+				for i := range sizes {
+					sizes[i] = min(3, lens[i])
+				}
+				if m.nRep == 0 {
+					sizes = []int{1}
+				}
+				enumx.Product(sizes, func(idx []int) bool {
+					reps := make([]int, m.nRep)
+					for i := range reps {
+						reps[i] = idx[i] + 1
+					}
+					base := tcase{Kind: "mixed", Lists: lists, Reps: reps, ECs: append([][2]int(nil), ecs...), Part: -1}
+					tys := []int{1, 2, 3}
+					if m.nRep > 0 {
+						tys = []int{0, 1, 2, 3}
+					}
+					jobs = append(jobs, job{base, k, tys})
+					for ri, e := range ecs {
+						for pi := 0; pi < e[0]+e[1]; pi++ {
+							b := base
+							b.PartRule, b.Part = ri, pi
+							jobs = append(jobs, job{b, k, []int{0}})
+						}
+					}
+					return true
+				})
+			})
+		}
+		recLen = func(i int) {
+			if i == n {
+				emit()
+				return
+			}
+			if i < m.nRep {
+				for l := 1; l <= m.maxRepLen; l++ {
+					lens[i] = l
+					recLen(i + 1)
+				}
+				return
+			}
+			for _, e := range m.ecRules {
+				ecs[i-m.nRep] = e
+				for l := e[0] + e[1]; l <= m.maxECLen; l++ {
+					lens[i] = l
+					recLen(i + 1)
+				}
+			}
+		}
+		recLen(0)
+	}
+	mixedJobs := len(jobs) - oneRuleJobs - twoRuleJobs - ecJobs
+	if os.Getenv("VERIF_COUNT") != "" { // developer aid
+		var n int64
+		for _, j := range jobs[len(jobs)-mixedJobs:] {
+			c := int64(1)
+			for i := 0; i < j.k; i++ {
+				c *= nAns
+			}
+			n += c * int64(len(j.tys))
+		}
+		fmt.Println("mixed jobs", mixedJobs, "cases >=", n)
+		os.Exit(0)
+	}
 
 	var mu sync.Mutex
 	traces := map[uint64]struct{}{}
@@ -447,7 +585,7 @@ func main() {
 		for i := range sizes {
 			sizes[i] = nAns
 		}
-		shape := fmt.Sprint(j.base.Kind, j.base.Lists, j.base.Reps, j.base.ECData, j.base.ECParity, j.base.Part)
+		shape := fmt.Sprint(j.base.Kind, j.base.Lists, j.base.Reps, j.base.ECData, j.base.ECParity, j.base.Part, j.base.ECs, j.base.PartRule)
 		one := func(c tcase) {
 			o := run(w, c)
 			r.Eval(1)
@@ -488,6 +626,11 @@ func main() {
 			tys, shs = []int{0}, []int{1, 2}
 		case "ec-plain":
 			tys, shs = []int{1, 2, 3}, []int{2}
+		case "mixed":
+			shs = []int{2}
+			if j.base.Part >= 0 {
+				shs = []int{1}
+			}
 		}
 		if j.tys != nil {
 			tys = j.tys
@@ -542,8 +685,8 @@ func main() {
 	r.Set("outcome_class_counts", cl)
 	r.Set("cases_with_local_copy_dropped", deletes.Load())
 	r.Set("cases_contacting_remote_nodes", contacted.Load())
-	r.Set("placement_shapes", map[string]int{"rep_one_rule": oneRuleJobs, "rep_two_rules": twoRuleJobs, "ec": ecJobs})
-	r.Rule(fmt.Sprintf("placements up to renaming of remote nodes: ONE REP rule = every list of 1..5 nodes with the local node at every position or absent x REP 1..3 (full product); TWO REP rules = every ordered pair of %s, lists sharing nodes in every way, REP 1..3 each; EC-only container with rule 2/1, 1/1 or 1/2 over 2..5 nodes: every part index, and TOMBSTONE/LOCK/LINK objects; x every remote node answering one of {has, 404+replica accepted, 404+replica refused, flagged maintenance, NODE_UNDER_MAINTENANCE status, error} x type REGULAR/TOMBSTONE/LOCK/LINK x 1-2 local shards (2 only for two-rule and ec-plain cases) x in/out of the network map when no list has the local node. distinct non-trivial = distinct (placement shape, type, policer trace [nodes HEADed, headers read, replicas sent/acked, deletes]) with at least one remote node contacted", bounds2txt))
+	r.Set("placement_shapes", map[string]int{"rep_one_rule": oneRuleJobs, "rep_two_rules": twoRuleJobs, "ec": ecJobs, "mixed_rep+ec_and_multi_ec": mixedJobs})
+	r.Rule(fmt.Sprintf("placements up to renaming of remote nodes: ONE REP rule = every list of 1..5 nodes with the local node at every position or absent x REP 1..3 (full product); TWO REP rules = every ordered pair of %s, lists sharing nodes in every way, REP 1..3 each; EC-only container with rule 2/1, 1/1 or 1/2 over 2..5 nodes: every part index, and TOMBSTONE/LOCK/LINK objects; MIXED policies (REP lists + EC lists, list lengths on both sides of each other, lists overlapping in every way): %s, object = REGULAR/TOMBSTONE/LOCK/LINK or any part of any EC rule; x every remote node answering one of {has, 404+replica accepted, 404+replica refused, flagged maintenance, NODE_UNDER_MAINTENANCE status, error} x type REGULAR/TOMBSTONE/LOCK/LINK x 1-2 local shards (2 only for two-rule and ec-plain cases) x in/out of the network map when no list has the local node. distinct non-trivial = distinct (placement shape, type, policer trace [nodes HEADed, headers read, replicas sent/acked, deletes]) with at least one remote node contacted", bounds2txt, mixTxt))
 	r.Exhaustive(!expired.Load())
 	r.Assume("every node answers the same way each time it is asked within one policer pass (per-node deterministic answers)",
 		"GetNodesForObject succeeds (missing-container clean-up is outside the property); mixed REP+EC policies and objects that are invalid for the policy (EC attributes without EC rule, REGULAR non-part object in an EC-only container: removed as garbage by design) are not enumerated",
